@@ -267,7 +267,7 @@ fn c03_conn_run_inner(s: &mut Src, stream: Vec<u8>, limit: Option<usize>, obs: &
                 max_write = 0;
             }
             1 => {
-                let ev = [WriteEv::All, WriteEv::Accept(s.u16()), WriteEv::Eintr, WriteEv::Eagain, WriteEv::Epipe, WriteEv::Zero][s.weighted(&[5, 5, 2, 2, 2, 2])];
+                let ev = [WriteEv::All, WriteEv::Accept(s.u16()), WriteEv::Eintr, WriteEv::Eagain, WriteEv::Epipe, WriteEv::Zero, WriteEv::EintrKind][s.weighted(&[5, 5, 2, 2, 2, 2, 1])];
                 ss.borrow_mut().next_write = Some(ev);
                 let r = guard("HttpConnection::try_write", trace.as_bytes(), || conn.try_write())?;
                 ss.borrow_mut().next_write = None;
@@ -559,11 +559,11 @@ fn c06_run_with_input(ops: &[WOp], input: &[u8], obs: &mut Obs) -> Result<(), Fa
                 }
                 let accepted_after = ss.borrow().out.len() - epoch_start;
                 match ev {
-                    WriteEv::Accept(_) | WriteEv::All | WriteEv::Eintr => {
+                    WriteEv::Accept(_) | WriteEv::All | WriteEv::Eintr | WriteEv::EintrKind => {
                         if r.is_err() {
                             return Err(Fail::new("C06:write-result", format!("op {}: stream behaviour {:?} made try_write fail with {:?}", i, ev, r)));
                         }
-                        if *ev == WriteEv::Eintr {
+                        if *ev == WriteEv::Eintr || *ev == WriteEv::EintrKind {
                             obs.label("eintr_mid_stream");
                             if accepted_after != accepted_before {
                                 return Err(Fail::new("C06:harness", "interrupted write accepted bytes".into()));
@@ -673,7 +673,7 @@ fn c06_hist(input: &Input, obs: &mut Obs) -> Result<(), Fail> {
                     WriteEv::Accept(raw)
                 }
                 1 => WriteEv::All,
-                2 => WriteEv::Eintr,
+                2 => if s.chance(90) { WriteEv::EintrKind } else { WriteEv::Eintr },
                 3 => WriteEv::Eagain,
                 4 => WriteEv::Epipe,
                 _ => WriteEv::Zero,
@@ -726,7 +726,7 @@ fn c06_mixed(input: &Input, obs: &mut Obs) -> Result<(), Fail> {
                 let ev = match s.weighted(&[12, 6, 3, 1, 1, 1]) {
                     0 => WriteEv::Accept(s.u16()),
                     1 => WriteEv::All,
-                    2 => WriteEv::Eintr,
+                    2 => if s.chance(90) { WriteEv::EintrKind } else { WriteEv::Eintr },
                     3 => WriteEv::Eagain,
                     4 => WriteEv::Epipe,
                     _ => WriteEv::Zero,
@@ -917,6 +917,28 @@ pub fn c11_differential_fds(stream: &[u8], limit: Option<usize>, sched: &mut dyn
             "used connection: {:?}\n",
             steps.iter().map(|s| format!("{}B->{}{}", s.got, match &s.res { RRes::Ok => "ok".to_string(), RRes::Parse(_, d) => format!("ERR {}", d.chars().take(40).collect::<String>()), o => format!("{:?}", o) }, if s.reqs.is_empty() { String::new() } else { format!("+{}req", s.reqs.len()) })).collect::<Vec<_>>()
         ));
+    }
+    // nothing is promised to the client on behalf of a rejected request: up to and including the
+    // read that reports the first error, the interim responses are exactly those of the requests
+    // whose header block was complete and acceptable before it (by the reference parser)
+    if plan.is_empty() {
+        if let Some(&e0) = err_idx.first() {
+            let consumed: usize = steps[..=e0].iter().map(|s| s.got).sum();
+            let mut out_all = Vec::new();
+            for s in &steps[..=e0] {
+                out_all.extend_from_slice(&s.out);
+            }
+            let (rs, rend) = rr_parse(&out_all);
+            let (reqs, _) = ref_parse(stream, buf_size(), eff(limit));
+            let want = reqs.iter().filter(|r| r.wants_continue && r.headers_done_at <= consumed).count();
+            let got = rs.iter().filter(|r| r.code == 100).count();
+            if rend != RrEnd::Clean || rs.len() != got || got != want {
+                return Err(Fail::new(
+                    "C11:interim-for-rejected",
+                    format!("up to the read that reports the first parse error (after {} bytes) the connection wrote \"{}\": {} interim response(s), {} expected from the requests accepted before the rejected one", consumed, esc(&out_all[..out_all.len().min(200)]), got, want),
+                ));
+            }
+        }
     }
     let mut compared = 0;
     for (k, &e) in err_idx.iter().enumerate() {
@@ -1515,7 +1537,7 @@ fn c12_ss(input: &Input, obs: &mut Obs) -> Result<(), Fail> {
     cfg.corrupt = 0;
     cfg.max_reqs = 5;
     cfg.max_body = 2500;
-    cfg.expect = 0;
+    cfg.expect = 50;
     cfg.error_free = true;
     let mut stream = Vec::new();
     let mut notes = Notes::default();
@@ -1899,7 +1921,7 @@ fn c12_socket(input: &Input, obs: &mut Obs) -> Result<(), Fail> {
     let mut cfg = GenCfg::new(buf_size(), crate::DEFAULT_LIMIT);
     cfg.corrupt = 0;
     cfg.max_body = 1500;
-    cfg.expect = 0;
+    cfg.expect = 50;
     cfg.error_free = true;
     let mut stream = Vec::new();
     let mut notes = Notes::default();
